@@ -51,6 +51,7 @@ int main(int argc, char **argv)
     if(c == "volume") return comp_volume();
     if(c == "wopn") return comp_wopn();
     if(c == "bankmap") return comp_bankmap();
+    if(c == "pitch") return comp_pitch();
     fprintf(stderr, "unknown component %s\n", c.c_str());
     return 2;
 }
